@@ -34,10 +34,23 @@ func TCP(r *prng.R, o FrameOpt) *rec.Rec {
 }
 func ARP(r *prng.R) *rec.Rec {
 	hl, pl := 6, 4
-	if r.Chance(1, 5) { // other link and protocol types: EUI-64, InfiniBand, IPv6-sized addresses, empty ones
+	ht, pt := r.Bits(16), r.Bits(16)
+	switch r.Intn(10) {
+	case 0: // other link and protocol types: EUI-64, InfiniBand, IPv6-sized addresses, empty ones
 		hl, pl = r.Pick(6, 8, 20, 1, 0), r.Pick(4, 4, 16, 0)
+	case 1: // type codes and lengths that belong together: Ethernet/IPv4 ...
+		ht, pt = 1, 0x0800
+	case 2: // ... IPv6-sized protocol addresses under the IPv6 ethertype
+		ht, pt, pl = 1, 0x86dd, 16
+	case 3: // ... EUI-64 and InfiniBand hardware addresses
+		if r.Bool() {
+			ht, hl = 27, 8
+		} else {
+			ht, hl = 32, 20
+		}
+		pt = 0x0800
 	}
-	return rec.New("arp").Set("htype", r.Bits(16)).Set("ptype", r.Bits(16)).Set("hlen", uint64(hl)).Set("plen", uint64(pl)).Set("oper", r.Bits(16)).
+	return rec.New("arp").Set("htype", ht).Set("ptype", pt).Set("hlen", uint64(hl)).Set("plen", uint64(pl)).Set("oper", r.Bits(16)).
 		SetB("sha", patBytes(r, hl)).SetB("spa", patBytes(r, pl)).SetB("tha", patBytes(r, hl)).SetB("tpa", patBytes(r, pl))
 }
 
